@@ -227,6 +227,15 @@ func (w *oracleWorkload) Next(block int) []rig.Tx {
 			out = append(out, r.Mk(creator, &orTag{Kind: "create", Feed: "feedcase"}, &oracletypes.MsgCreateFeed{FeedName: "feedcase", LatestHistory: 3, Description: "d", Creator: creator.Addr.String(), ServiceName: orSvc,
 				Providers: []string{w.provs[0].Addr.String()}, Input: `{"header":{},"body":{}}`, Timeout: 2, ServiceFeeCap: sdk.NewCoins(sdk.NewInt64Coin(rig.BondDenom, 10)), RepeatedFrequency: 3,
 				AggregateFunc: pick(rng, "Avg", "MAX", "miN"), ValueJsonPath: "last", ResponseThreshold: 1}))
+			// two feeds created by one transaction (their request contexts are made within one transaction)
+			creator2 := r.Acc(4) // (the feedcase transaction above fails before its sequence number is consumed)
+			twin := func(name, agg string) *oracletypes.MsgCreateFeed {
+				return &oracletypes.MsgCreateFeed{FeedName: name, LatestHistory: 3, Description: "d", Creator: creator2.Addr.String(), ServiceName: orSvc,
+					Providers: []string{w.provs[1].Addr.String()}, Input: `{"header":{},"body":{}}`, Timeout: 2, ServiceFeeCap: sdk.NewCoins(sdk.NewInt64Coin(rig.BondDenom, 10)), RepeatedFrequency: 4,
+					AggregateFunc: agg, ValueJsonPath: "last", ResponseThreshold: 1}
+			}
+			out = append(out, r.Mk(creator2, &orTag{Kind: "create", Feed: "feedtwa"}, twin("feedtwa", "max"), twin("feedtwb", "min")))
+			w.run.Count("two-feeds-created-by-one-transaction", 1)
 		}
 		return out
 	}
@@ -558,14 +567,22 @@ func (w *oracleWorkload) Observe(br *rig.BlockRecord) {
 		}
 		run.Op("h=%d #%d oracle %s %s ok=%v %s", br.Height, tx.Index, tag.Kind, msgBrief(tx.Msgs), tx.OK(), logBrief(tx))
 		run.Count("or-"+tag.Kind+okSuffix(tx), 1)
+		if tag.Kind == "create" && !tx.OK() {
+			run.Count("or-create-rejected:"+tag.Feed+": "+htErrClass(tx.Result.Log), 1)
+		}
 		f := w.feeds[tag.Feed]
 		switch tag.Kind {
 		case "create":
 			if tx.OK() {
-				m := tx.Msgs[0].(*oracletypes.MsgCreateFeed)
-				fd, _ := r.K.Oracle.GetFeed(r.Ctx(), m.FeedName)
-				w.feeds[m.FeedName] = &feedModel{Name: m.FeedName, Creator: m.Creator, Agg: m.AggregateFunc, History: m.LatestHistory, CtxID: fd.RequestContextID, Resp: map[uint64][]*big.Rat{}, RespSrc: map[uint64][]string{}}
-				w.names = append(w.names, m.FeedName)
+				for _, mm := range tx.Msgs {
+					m, isCreate := mm.(*oracletypes.MsgCreateFeed)
+					if !isCreate {
+						continue
+					}
+					fd, _ := r.K.Oracle.GetFeed(r.Ctx(), m.FeedName)
+					w.feeds[m.FeedName] = &feedModel{Name: m.FeedName, Creator: m.Creator, Agg: m.AggregateFunc, History: m.LatestHistory, CtxID: fd.RequestContextID, Resp: map[uint64][]*big.Rat{}, RespSrc: map[uint64][]string{}}
+					w.names = append(w.names, m.FeedName)
+				}
 				sort.Strings(w.names)
 			}
 		case "respond", "respond-duplicate", "respond-foreign":
